@@ -49,6 +49,33 @@ def run(res, proofs_ok, proofs_why):
                 diffs.append({"case": F.describe(r), "what": "daemon bytes differ from Layout.encode", "impl_hex": after.hex(), "model_hex": mbytes.hex() if mbytes else None})
         if why:
             bad.append({"case": F.describe(r), "why": why})
+    # the same live segment: the daemon publishes a new record while the call is reading its first clock;
+    # both libraries took their snapshot before that, so both answer from the record that was there
+    NS = 10 ** 9
+    from props import _client as K
+    plines, mlines = [], []
+    for k in range(60 if res.tier == "quick" else 3000):
+        mono = rng.randrange(10, 10 ** 6) * NS + rng.randrange(NS)
+        real = rng.randrange(10 ** 9) * NS + rng.randrange(NS)
+        as_old = mono - rng.choice([0, 1, 999, 10 ** 6, 3 * NS, 400 * NS])
+        as_new = mono + rng.choice([1, 999, 1001, 4 * 10 ** 6, NS, 20 * NS])       # sampled after the call's readings
+        rec = lambda a, b, st: "%d %d %d 0 %d %d %d" % (a // NS, a % NS, a // NS + 1000, b, rng.choice([1000, 50000]), st)   # noqa: E731
+        o, n = rec(max(0, as_old), rng.randrange(10 ** 7), rng.choice([0, 1, 2])), rec(as_new, rng.randrange(10 ** 7), rng.choice([1, 2]))
+        clk = "%d %d %d %d" % (real // NS, real % NS, mono // NS, mono % NS)
+        plines.append("cbp %s %s %s" % (o, n, clk))
+        mlines.append("cba %s %s" % (o, clk))
+    p_rust = c.run_lines(c.build_harness("debug")[0], plines)
+    p_c = c.run_lines(F.build_c_driver(), plines, args=())
+    p_model = c.run_model(mlines)
+    for ln, rr, cc, mm in zip(plines, p_rust, p_c, p_model):
+        res.evaluations += 1
+        res.nontriv(ln)
+        res.count("gen:publication while the call reads its clocks")
+        if cc != rr:
+            bad.append({"case": {"file": "live segment", "line": ln}, "why": ["the daemon published a new record while the call was reading its first clock: C library %s, Rust client %s "
+                                                                            "(same segment, same instant); from the record that was in the segment when the call started the model gives %s" % (cc, rr, mm)]})
+        elif rr != mm:
+            diffs.append({"case": {"line": ln}, "what": "publication during the call: both libraries %s, model on the record present at the start of the call %s" % (rr, mm)})
     res.samples = [F.describe(results[i]) for i in (0, 5, len(results) - 1)]
     res.traces_validated = len(results) - len(diffs)
     res.oblige("correspondence:daemon bytes vs Layout.encode_header/encode_ceb; now() of both client libraries vs Client.compute_bound_at on the decoded record", not diffs)
